@@ -2,8 +2,6 @@ package rules
 
 import (
 	"fmt"
-	"go/token"
-	"strings"
 
 	"golang.org/x/tools/go/ssa"
 
@@ -173,136 +171,15 @@ func c18(c *core.Ctx, r *core.Report) {
 }
 
 func c18Validate(c *core.Ctx, r *core.Report, p *procInfo) {
-	fn := p.Props
 	cons := p.Name()
-	tagArg := c.Named("component_definition", "TagArg")
-	find := c.DeclaredMethod(tagArg, "Find")
-	var finds []*ssa.Call
-	for _, ci := range core.Calls(fn) {
-		if call, ok := ci.(*ssa.Call); ok && core.IsCallTo(call.Common(), find) {
-			if s, ok := core.ConstString(call.Common().Args[1]); ok && strings.EqualFold(s, "validate") {
-				finds = append(finds, call)
-			}
-		}
-	}
-	if !r.Exactly("C18.R3", "Find(validate) sites in "+cons, len(finds), 1) {
+	rs, runs, und := validateTable(c, p)
+	r.Count("validate_table_runs", runs)
+	if und != "" {
+		r.Undecided("C18.R3", cons+":validate-table", c.FnPos(p.Props), "abstract interpretation left the model: "+und)
 		return
 	}
-	findCall := finds[0]
-	okVal := core.ResultValue(findCall, 1)
-	args := core.ResultValue(findCall, 0)
-	var vcalls []*ssa.Call
-	for _, ci := range core.Calls(fn) {
-		call, ok := ci.(*ssa.Call)
-		if !ok {
-			continue
-		}
-		isStruct := core.IsExtCall(call.Common(), "(*github.com/go-playground/validator/v10.Validate).Struct")
-		isVar := core.IsExtCall(call.Common(), "(*github.com/go-playground/validator/v10.Validate).Var")
-		if !isStruct && !isVar {
-			continue
-		}
-		vcalls = append(vcalls, call)
-		name := "Var"
-		if isStruct {
-			name = "Struct"
-		}
-		vc := cons + ":" + name
-		// gate: Find ok == true, PropertyType == Configuration
-		gatedFind, gatedType, kindEdge := false, false, ""
-		for _, cd := range core.Guards(call.Block()) {
-			if cd.If.Cond == okVal && cd.Branch {
-				gatedFind = true
-			}
-			if b, ok := cd.If.Cond.(*ssa.BinOp); ok {
-				if propFieldLoad(c, b.X, "PropertyType") || propFieldLoad(c, b.Y, "PropertyType") {
-					for _, side := range []ssa.Value{b.X, b.Y} {
-						if s, ok := core.ConstString(side); ok && s == "Configuration" {
-							if (b.Op == token.NEQ && !cd.Branch) || (b.Op == token.EQL && cd.Branch) {
-								gatedType = true
-							}
-						}
-					}
-				}
-				// kind test against reflect.Struct (25)
-				for _, side := range []ssa.Value{b.X, b.Y} {
-					if k, ok := core.ConstInt(side); ok && k == 25 && b.Op == token.EQL {
-						if cd.Branch {
-							kindEdge = "struct"
-						} else {
-							kindEdge = "non-struct"
-						}
-					}
-				}
-			}
-		}
-		// nothing else may switch validation off
-		extra := ""
-		for _, cd := range c.ControlDeps(call.Block()) {
-			cond := cd.If.Cond
-			if cond == okVal {
-				continue
-			}
-			if rl := core.RangeLoopOf(fn, cd.If.Block()); rl != nil && rl.Header == cd.If.Block() {
-				continue
-			}
-			if b, ok := cond.(*ssa.BinOp); ok {
-				if propFieldLoad(c, b.X, "PropertyType") || propFieldLoad(c, b.Y, "PropertyType") {
-					continue
-				}
-				if _, isK := core.ConstInt(b.Y); isK && strings.HasSuffix(b.X.Type().String(), "reflect.Kind") {
-					continue
-				}
-				if _, isK := core.ConstInt(b.X); isK && strings.HasSuffix(b.Y.Type().String(), "reflect.Kind") {
-					continue
-				}
-			}
-			if cl, ok := cond.(*ssa.Call); ok && core.IsExtCall(cl.Common(), "(reflect.Value).CanInterface") {
-				continue
-			}
-			extra = "extra condition at " + c.Pos(cond.Pos())
-		}
-		r.Check(extra == "", "C18.R3", vc+":no-other-condition", c.Pos(call.Pos()), "validation is conditional on nothing but the validate argument, the property type, the field kind and interface access "+extra)
-		r.Check(gatedFind, "C18.R3", vc+":gated-by-validate-arg", c.Pos(call.Pos()), "validation runs only for fields carrying a validate argument")
-		r.Check(gatedType, "C18.R3", vc+":gated-by-configuration-type", c.Pos(call.Pos()), "validation runs only for configuration properties")
-		want := "non-struct"
-		if isStruct {
-			want = "struct"
-		}
-		r.Check(kindEdge == want, "C18.R3", vc+":kind", c.Pos(call.Pos()), "Struct() is used exactly for struct kinds and Var() otherwise (edge: "+kindEdge+")")
-		// validated value = prop.Value.Interface()
-		okArg := false
-		if iface, ok := core.Norm(call.Common().Args[1]).(*ssa.Call); ok && core.IsExtCall(iface.Common(), "(reflect.Value).Interface") {
-			okArg = propFieldLoad(c, iface.Common().Args[0], "Value") || baseFieldLoad(c, iface.Common().Args[0], "Value")
-		}
-		r.Check(okArg, "C18.R3", vc+":validates-bound-value", c.Pos(call.Pos()), "the validated value is the field's current (bound) value")
-		if isVar {
-			okTag := false
-			if j, ok := core.Norm(call.Common().Args[2]).(*ssa.Call); ok && core.IsExtCall(j.Common(), "strings.Join") {
-				sep, _ := core.ConstString(j.Common().Args[1])
-				okTag = core.Norm(j.Common().Args[0]) == args && sep == ","
-			}
-			r.Check(okTag, "C18.R3", vc+":constraint-text", c.Pos(call.Pos()), "Var() is given the validate argument's items joined by ','")
-		}
-		u := core.ClassifyErr(call)
-		r.Check(u.Class == core.ErrTested || u.Class == core.ErrReturned, "C18.R3", vc+":error", c.Pos(call.Pos()), "a validator error becomes a non-nil return ("+string(u.Class)+" "+u.Detail+")")
-	}
-	r.Floor("C18.R3", "validator calls in "+cons, len(vcalls), 2)
-	// no other error return
-	for _, ret := range core.Returns(fn) {
-		if core.ClassifyReturn(ret) == core.RetSuccess {
-			continue
-		}
-		fromValidator := false
-		for _, vc := range vcalls {
-			for _, t := range core.NilTests(core.ErrValue(vc)) {
-				if core.EdgeDominates(t.If.Block(), t.NonNil, ret.Block()) {
-					fromValidator = true
-				}
-			}
-		}
-		r.Check(fromValidator, "C18.R3", cons+":only-validator-errors", c.Pos(ret.Pos()), "every error return of the validation stage stems from a validator verdict (start-up never fails otherwise)")
-	}
+	smallModelCheck(c, r, "C18.R3", cons+":validate-table", p.Props, 2)
+	rs.report(c, r, p.Props, func(string) string { return "C18.R3" }, cons+":validate-table", validateRows)
 }
 
 // baseFieldLoad: load of an embedded Base/Field field (prop.Field.Base.Value chain).
